@@ -9,6 +9,7 @@ type spec struct {
 	Instrument  bool   // build with mechanically instrumented sources (schedule exploration)
 	InstrPkgs   []string
 	StmtPoints  []string // functions that get statement-level scheduling points
+	AtomicRanges []string // functions whose range loops run without scheduling points (random map iteration order)
 	RacePass    bool
 	Rule        string
 	Assumptions []string
@@ -84,6 +85,10 @@ var schedAssumptions = append([]string{
 }, commonAssumptions...)
 
 var specs = []spec{
+	{ID: "C12", Pkg: ".", Level: "model_checking", Instrument: true, Procs: 1,
+		AtomicRanges: []string{"clientStreamProcessorMPEGTS.joinTrackProcessors"},
+		Rule:        "delay-bounded schedule enumeration (every non-default decision costs one; bound 1 quick / 2 thorough, one more with two closers) of the real Client against the scripted transport: streams {fMP4 one playlist, fMP4 video + audio rendition, MPEG-TS, Low-Latency with preload hints} x fault {none, 404, 500, transport error, body that stalls until cancelled, OnTracks error} at every request index x {no Close, Close by a concurrent thread whose single step is thereby placed at every decision point, two Close calls}; distinct = distinct (stream, fault, end, closed-before-end, callback count/4)",
+		Assumptions: schedAssumptions},
 	{ID: "C13", Pkg: ".", Level: "fault_enumeration", Instrument: true, Procs: 2,
 		Rule:        "finite mutation catalogue applied to every resource of three base scenarios (fMP4 video+audio in one playlist, fMP4 video + audio rendition through a multivariant playlist, MPEG-TS video+audio): empty body, the body of every other resource, init segments with every codec mediacommon can put into fMP4 (12) alone and next to H264 / AAC, permuted / duplicated / gapped track ids, zero time scales, 12 tracks, fragments without leading-track data, with unknown or swapped track ids, huge base times and durations, 30 fragments, MPEG-TS payloads with other codecs or without leading-track data, garbage; truncation at every box boundary and after every box header, removal and duplication of every box, box sizes 0 and 2^32-1, every 32-bit word of tfhd/tfdt/trun/mfhd/mdhd/mvhd/tkhd/trex set to {0,1,2^31,2^32-1}, tfdt base time in {0,1,2^31,2^32-1,2^63,2^64-1}; truncation at every TS packet boundary and inside every packet, corrupted sync / header bytes of every packet; playlists: every line deletion and duplication, truncation at every (3rd) byte, every stored fuzz-corpus text and a few adversarial playlists; each case is one run of the real Client; distinct = distinct (scenario, resource, mutation kind, end, delivered units)",
 		Assumptions: append([]string{"client goroutines are scheduled by the Go runtime inside a testing/synctest bubble (virtual clock); a 60 s real-time watchdog attributes hangs / busy loops"}, commonAssumptions...)},
